@@ -105,13 +105,15 @@ RefRun(s, rdy, fuel) ==
                            THEN LET r == Resume(s, CHOOSE v \in ResumeVals : TRUE) IN RefRun(Flush(r.s), r.s.sched, fuel - 1)
                            ELSE s)
   ELSE LET s1 == Handle(s, Head(rdy)) IN RefRun(Flush(s1), Tail(rdy) \o s1.sched, fuel - 1)
-Ref == IF S.born THEN RefRun(InitS(S.pi, S.pl), <<"task">>, 100) ELSE InitS(S.pi, S.pl)
+\* (TLC walks the expanded definition of every operator once per syntactic occurrence when it starts: Ref is mentioned sparingly)
+Ref == IF S.born THEN RefRun(InitS(S.pi, S.pl), <<"task">>, 100) ELSE S
 
 IsPrefixOf(a, b) == Len(a) <= Len(b) /\ SubSeq(b, 1, Len(a)) = a
 OnlyPausePlayResume == Alphabet \subseteq {"pause", "play", "resume"}
-C05_StepsPrefix == (CleanFor("C05") /\ OnlyPausePlayResume) => IsPrefixOf(Steps(S), Steps(Ref))
-C05_Transparent == (CleanFor("C05") /\ OnlyPausePlayResume /\ Terminated(S)) =>
-                      /\ Steps(S) = Steps(Ref) /\ S.outputs = Ref.outputs /\ S.cur = Ref.cur /\ S.fut = Ref.fut
+StepsArePrefix(a, b) == IsPrefixOf(Steps(a), Steps(b))
+SameOutcome(a, b) == Steps(a) = Steps(b) /\ a.outputs = b.outputs /\ a.cur = b.cur /\ a.fut = b.fut
+C05_StepsPrefix == (CleanFor("C05") /\ OnlyPausePlayResume) => StepsArePrefix(S, Ref)
+C05_Transparent == (CleanFor("C05") /\ OnlyPausePlayResume /\ Terminated(S)) => SameOutcome(S, Ref)
 
 (* ---- C06: a wake-up is never lost ----------------------------------------------------------- *)
 C06_NoLostWakeup == (CleanFor("C06") /\ Quiescent /\ S.st = "WAITING" /\ S.mon.resumed) => S.pausedF # "none"
@@ -189,9 +191,8 @@ Bundle(b) == [b EXCEPT !.nlog = 0]
 C07_SaveLoadSave == S.snap.has => Bundle(Persist(Restore(S))) = Bundle(S.snap)
 \* with no interference but checkpoints, restores and the resume values: the resumed execution is the uninterrupted one
 OnlyCheckpoints == Alphabet \subseteq {"save", "restore", "resume"}
-C08_StepsPrefix == OnlyCheckpoints => IsPrefixOf(Steps(S), Steps(Ref))
-C08_Equivalent  == (OnlyCheckpoints /\ Terminated(S)) =>
-                      /\ Steps(S) = Steps(Ref) /\ S.outputs = Ref.outputs /\ S.cur = Ref.cur /\ S.fut = Ref.fut
+C08_StepsPrefix == OnlyCheckpoints => StepsArePrefix(S, Ref)
+C08_Equivalent  == (OnlyCheckpoints /\ Terminated(S)) => SameOutcome(S, Ref)
 
 \* hide the histories when only the monitors matter (larger K)
 View == <<[S EXCEPT !.log = <<>>], ready, budget>>
